@@ -1170,6 +1170,33 @@ def _quant(interp, args, is_forall):
     j = st.fresh_int('j')
     lo_t, hi_t = to_z3(lo), to_z3(hi)
     rng = z3.And(lo_t <= j, j < hi_t)
+    return _quant_over(interp, j, SInt(j), rng, pred, is_forall)
+
+
+def q_forall_keys(interp, args, kwargs):
+    """forall_keys(d, pred): pred(k) holds for every key k of the symbolic map d."""
+    m, pred = args
+    if isinstance(m, (SOpt, SChoice)):
+        m = interp.resolve(m)
+    if isinstance(m, SMapProxy):
+        m = m.m
+    if not isinstance(m, SMap):
+        for k in list(interp.iterate(m)):
+            if not interp.branch(interp.call(pred, [k], {})):
+                return False
+        return True
+    st = interp.st
+    if m.ksort == z3.StringSort():
+        k = st.fresh_str('k')
+    elif m.ksort == z3.IntSort():
+        k = st.fresh_int('k')
+    else:
+        raise Unsupported('forall_keys over keys of sort %s' % m.ksort)
+    return _quant_over(interp, k, wrap(k), z3.Select(m.has, k), pred, True)
+
+
+def _quant_over(interp, j, j_value, rng, pred, is_forall):
+    st = interp.st
     st.no_fork += 1
     n_pc = len(st.pc)
     n_fresh = len(st.fresh_log)
@@ -1180,7 +1207,7 @@ def _quant(interp, args, is_forall):
             if st.check() == z3.unsat:
                 body = True if is_forall else False
             else:
-                body = interp.truth(interp.call(pred, [SInt(j)], {}))
+                body = interp.truth(interp.call(pred, [j_value], {}))
     finally:
         st.no_fork -= 1
         st.solver.pop()
@@ -1196,7 +1223,7 @@ def _quant(interp, args, is_forall):
     created = [c for c in st.fresh_log[n_fresh:] if not c.eq(j)]
     subst = []
     for c in created:
-        f = z3.Function(c.decl().name() + '@', z3.IntSort(), c.sort())
+        f = z3.Function(c.decl().name() + '@', j.sort(), c.sort())
         subst.append((c, f(j)))
     bt = to_z3(body)
     if subst:
